@@ -149,19 +149,22 @@ def sample(rnd, xs, n):
     return rnd.sample(xs, n)
 
 
-def sentence(g, rnd, e, depth=0):
+def sentence(g, rnd, e, depth=0, big=0):
     """a random string derived from expression e (ignores lookaheads, checks and whitespace):
-    grammar-directed inputs reach deep structure that uniformly random strings rarely do"""
+    grammar-directed inputs reach deep structure that uniformly random strings rarely do.
+    `big`: number of iterations of the closures met before any rule call or closure body is entered"""
     if depth > 6:
         return ""
     if isinstance(e, Seq):
-        return "".join(sentence(g, rnd, p, depth) for p in e.parts)
+        return "".join(sentence(g, rnd, p, depth, big) for p in e.parts)
     if isinstance(e, Choice):
-        return sentence(g, rnd, rnd.choice(e.alts), depth)
+        return sentence(g, rnd, rnd.choice(e.alts), depth, big)
     if isinstance(e, Opt):
-        return sentence(g, rnd, e.b, depth) if rnd.random() < 0.6 else ""
+        return sentence(g, rnd, e.b, depth, big) if (big or rnd.random() < 0.6) else ""
     if isinstance(e, Clo):
         n = rnd.choice([0, 1, 1, 2, 2, 3]) if not e.plus else rnd.choice([1, 1, 2, 3])
+        if big and depth == 0:
+            n = big
         return "".join(sentence(g, rnd, e.b, depth + 1) for _ in range(n))
     if isinstance(e, (Neg, Pos, Eoi)):
         return ""
@@ -193,6 +196,16 @@ def sentence(g, rnd, e, depth=0):
         o = r.fn.get("o")
         return {"digits": "1", "two": "".join(rnd.choice(g.alpha) for _ in range(2)) if g.alpha else "", "upper": "B"}.get(o, "")
     return ""
+
+
+def add_long(g, rnd, big=270, cap=1500):
+    """one input in which the closures of the root rule's own body iterate `big` times (more than 255 values
+    in one Vec, more than 255 iterations): run on the real parsers and model-checked in lean mode"""
+    t = sentence(g, rnd, g.rule(g.root).body, 0, big)
+    if 256 <= len(t) <= cap and all(c in g.alpha for c in t):
+        g.real_extra.append(list(t))
+        return True
+    return False
 
 
 def add_extras(g, rnd, n, lo, hi):
@@ -345,6 +358,8 @@ def fam_fields(tier, seed):
         g = Grammar("fld_%04d" % len(out), fields_rules(body), root="S", maxlen=maxlen, meta={"shape": name})
         g.alpha = ["a", "b", "c"]
         add_extras(g, rnd, 12 if tier == "quick" else 60, 4, 8)
+        if (name, th) in hand or tier != "quick" or len(out) % 5 == 0:
+            add_long(g, rnd)
         if well_formed(g):
             out.append(g)
     # override rules: simple, optional, enum, through a prefix
@@ -1191,8 +1206,23 @@ def fam_term(tier, seed):
                 add_extras(g, rnd, 10 if tier == "quick" else 50, 3, 6)
                 if well_formed(g):
                     out.append(g)
+    # long literals: a comparison done in machine words, or on a prefix only, shows at one position of one length
+    base = "aBcdEfgHijkLmnopQrstuvWxyz0123456789_"
+    for ln in ((4, 8, 9, 16, 17, 33) if tier == "quick" else (4, 5, 7, 8, 9, 15, 16, 17, 24, 31, 32, 33, 37)):
+        l = base[:ln]
+        for ci in (False, True):
+            g = Grammar("term_%04d" % len(out), [Rule("S", Seq(Lit(l, ci=ci), Opt(Call("char", "c"))), export=True, position=True, no_skip_ws=True)],
+                        root="S", maxlen=1, meta={"shape": "long_lit_%s%d" % ("i" if ci else "", ln)})
+            g.alpha = ["a", "B"]
+            g.extra = [list(l), list(l.swapcase()), list(l[:-1]), list(l + "a"), list(l.lower()), list(l.upper())]
+            for k_ in range(ln):
+                for repl in (chr(ord(l[k_]) ^ 0x20), chr(ord(l[k_]) + 1), "é"):
+                    g.extra.append(list(l[:k_] + repl + l[k_ + 1:]))
+            if well_formed(g):
+                out.append(g)
     ranges = [("a", "z"), ("A", "Z"), ("0", "9"), ("@", "["), ("`", "{"), ("\x00", "\x1f"), ("~", "\x80"), ("z", "é"),
-              ("a", "a"), ("b", "a")]
+              ("a", "a"), ("b", "a"), ("\x7f", "\u0800"), ("\u07ff", "\uffff"), ("\ud7ff", "\ue000"), ("\uffff", "\U00010000"),
+              ("\U00010000", "\U0010ffff"), ("\x01", "\U0010fffe")]
     for lo, hi in ranges:
         body = Seq(Range(lo, hi), Opt(Range(lo, hi)))
         g = Grammar("term_%04d" % len(out), [Rule("S", body, export=True, position=True, no_skip_ws=True)], root="S",
@@ -1645,6 +1675,8 @@ def fam_rand(tier, seed):
         # but an include inside them could bring fields in - expr() never puts an include under a lookahead
         g.meta["shape"] = "random#%d/%d" % (seed, len(out))
         add_extras(g, rnd, 25 if tier == "quick" else 60, 3, 9)
+        if len(out) % 3 == 0:
+            add_long(g, rnd)
         out.append(g)
     return out
 
